@@ -604,6 +604,45 @@ inputLoop:
 		}
 		res.Count("human_arbitrary")
 		emitHuman(cf, res, &caseNo, "human", src, r.Intn(5), ds)
+		// stream `humang`: diagnostics of other producers than the parser, as far as the hook reaches them: err.Pos == nil
+		// mixed with positioned ones, with messages (model: BclErrposGen.human_text_g_bytes; file name, context path and a
+		// nil Err are in the model and its theorems, the verif hook cannot construct them)
+		if i%2 == 1 {
+			gs := make([]bcl.Diag, 0, len(ds)+2)
+			for k, d := range ds {
+				if r.Chance(40) {
+					gs = append(gs, bcl.Diag{HasPos: false, Msg: fmt.Sprintf("no position %d", k)})
+				}
+				d.Msg = vh.Pick(r, []string{"", "unexpected token", "m\tq", "two\nlines"})
+				gs = append(gs, d)
+			}
+			if r.Chance(50) {
+				gs = append(gs, bcl.Diag{HasPos: false, Msg: ""})
+			}
+			ctxN := r.Intn(5)
+			gg := guard(5*time.Second, func() string { s, _ := bcl.HumanStringOf(src, gs, ctxN); return s })
+			inG := fmt.Sprintf("%q context=%d diags=%v", src, ctxN, gs)
+			if gg.Panic != nil || gg.Timeout {
+				res.Fail(vh.Failure{Case: caseNo, Stream: "humang", Sig: "C11 HumanString panic: " + panicClass(gg.Panic), Clause: "rendering diagnostics against the source never fails", Input: inG, Got: fmt.Sprint(gg.Panic)})
+			} else {
+				items := make([]string, len(gs))
+				for k, d := range gs {
+					posT := "None"
+					if d.HasPos {
+						posT = fmt.Sprintf("(Some (None,%s,%s))", posTerm(d.Start), posTerm(d.End))
+					}
+					items[k] = fmt.Sprintf("(%s,None,Some %s)", posT, vh.BytesTerm(d.Msg))
+				}
+				res.Count("human_general")
+				cf.Terms = append(cf.Terms, fmt.Sprintf("CHumanTextG %s %s %s %s", vh.BytesTerm(src), zlit(ctxN), listTerm(items), vh.BytesTerm(gg.Val)))
+				res.Cases = append(res.Cases, vh.CaseRec{Case: caseNo, Stream: "humang", Input: inG, Impl: gg.Val})
+			}
+			caseNo++
+		}
+	}
+
+	if !aborted {
+		runHumanFile(cfg, cf, res, &caseNo, r)
 	}
 
 	res.Evaluations = caseNo
